@@ -5,5 +5,5 @@ CONSTANTS
   U32MAX = 7
 INIT Init
 NEXT Next
-INVARIANT Same
+INVARIANTS Same CodeInv
 CHECK_DEADLOCK FALSE
